@@ -51,6 +51,7 @@ def main():
     S.stream_reduce_all(ctx)
     S.stream_lazy_binary(ctx)
     S.stream_binary_containers(ctx)
+    S.stream_lazy_compare(ctx)
     S.extended_oracle(ctx)
     S.container_matrix(ctx)
     run.finish("proof")
